@@ -737,6 +737,8 @@ def scenarios(pid, tier):
             out.append(S(ct, ["req:a", "req:a"], max_connections=2, h2script={"goaway": ids}, early=False))
             out.append(S(ct, ["post:a", "req:a"], max_connections=2, h2script={"goaway": [1, 3], "rst": 1}, early=False))
             out.append(S(ct, ["req:a:w", "post:a", "req:a"], max_connections=2, h2script={"goaway": [3, 5, 7]}, early=False))
+            # the other stream is already reading when the upload's HEADERS write is still pending (write lock order)
+            out.append(S(ct, ["req:a:w", "req:a", "post:a"], max_connections=2, h2script={"goaway": [3, 5, 7]}, early=False))
             if not quick:
                 out.append(S(ct, ["req:a", "req:a", "req:a:late"], max_connections=2, h2script={"goaway": ids}, early=False))
                 out.append(S(ct, ["req:a", "req:a"], max_connections=2, h2script={"goaway": ids, "frag": 2}))
